@@ -14,6 +14,7 @@ func init() {
 		Title: "Output is independent of logging history and of pooled-object reuse",
 		Fn:    checkC08,
 		Explanation: "History can only leak through objects recycled by zap's pools, so the check decides reset completeness and ownership for every pool found in the tree: each field of a pooled struct that is ever written outside the pool's constructor is either stored a neutral value on every path of the put wrapper before Pool.Put or unconditionally reassigned by the get wrapper before the object is handed out; Pool.Get/Put are called only from the designated wrappers; no function uses an object, or lets a reference into its storage escape, after releasing it; a buffer held in a field is released at most once (the field is cleared, or its holder is handed to a wrapper that clears it, on every path after Free); pooled-buffer fields are only ever assigned nil or a buffer freshly taken from the pool (exclusive ownership); the buffer returned by EncodeEntry is freed exactly once after the sink write. " +
+			"Also decided: release functions are derived from the code (a function that puts its own receiver/parameter back) rather than listed; nothing that points into an object released by a deferred call is returned (its buffer bytes, its slices); encoding never writes into an object the shared encoder holds by pointer; values built from a parent never share a slice tail with it (all packages). " +
 			"NOT decided: sync.Pool and GC behaviour, state kept in user objects, capacity effects.",
 		Assumptions: commonAssumptions,
 	}
